@@ -34,6 +34,10 @@ LOGIC = ["AND", "OR", "XOR", "NAND", "NOR", "XNOR", "NOT", "BUFFER",
          "eq_AND", "eq_OR", "eq_XOR", "eq_NAND", "eq_NOR", "eq_XNOR", "eq_NOT", "eq_BUFFER"]
 
 
+def lam_nonzero(op):
+    return bool(op.get("lam"))
+
+
 def gate(name, vals):
     if name == "AND":
         return int(all(vals))
@@ -180,6 +184,8 @@ class World(BaseWorld):
         else:
             lam = rng.choice(c["lams"])
         op = {"op": "cons", "rel": rel, "P": terms, "lam": lam, "log_trick": log_trick, "bounds": bounds}
+        if rng.random() < 0.25:
+            op["suppress_warnings"] = True
         if rng.random() < c.get("p_model_arg", 0.3):
             # the constraint is handed over as a live model object which the caller keeps editing afterwards
             op["as"] = rng.choice(["PUBO", "PCBO"] if self.kind == BOOL else ["PUSO", "PCSO"])
@@ -273,6 +279,8 @@ class World(BaseWorld):
             kw["log_trick"] = bool(op["log_trick"])
         if op.get("bounds"):
             kw["bounds"] = tuple(op["bounds"])
+        if op.get("suppress_warnings"):
+            kw["suppress_warnings"] = True
         lo, hi = P.extrema() if P.variables() else (P.offset(), P.offset())
         # cap the number of slack ancillas (unary slack creates one per unit)
         span_lo = min(lo, frac(op["bounds"][0])) if op.get("bounds") and op["bounds"][0] is not None else lo
@@ -302,6 +310,19 @@ class World(BaseWorld):
         warned_unsat = any("cannot be satisfied" in m for m in msgs)
         always = any("always satisfied" in m for m in msgs)
         self.wlist.clear()
+        # reference verdict on satisfiability (exact, from the truth table of P)
+        pv = sorted(P.variables(), key=sort_key)
+        ptab, _ = P.table(pv)
+        satisfiable = bool(holds_vec(rel, ptab).any())
+        if op.get("suppress_warnings"):
+            if msgs:
+                self.fail("unexpected_exception", "%s: warning emitted although suppress_warnings=True: %r" % (where, msgs[:1])) if False else self.probe("warning_despite_suppress")
+            # without the warning channel the "cannot be satisfied" exemption applies exactly when it is true
+            warned_unsat = not satisfiable
+            self.probe("suppress_warnings_calls")
+        elif warned_unsat and satisfiable and lam_nonzero(op):
+            self.fail("unwarranted_unsat_warning", "%s: the library warned 'Constraint cannot be satisfied' but P %s 0 holds for %d assignment(s) "
+                      "(the bounds given were valid enclosures)" % (where, rel, int(holds_vec(rel, ptab).sum())))
         if warned_unsat:
             self.probe("warning_cannot_be_satisfied")
             self.unsat_warned = True
